@@ -230,6 +230,17 @@ CHECKS = {
         "(counted as excused); division by a possibly-zero divisor is skipped; free Bool variables are unsupported by the VSA backend (counted).",
         "DESIGN.md §2 C24",
     ),
+    "C25": (
+        "model_checking",
+        "bounded-exhaustive enumeration of constraints (comparison x shape x constant / variable right-hand side, plus pairwise connectives) with every satisfying assignment enumerated; concretisation-membership oracle",
+        "10 comparisons x ~60-150 shapes (add / sub / extract with all bounds / concat / zero- and sign-extension / and / or "
+        "/ xor / shifts / If / two-variable forms, all constants) x all right-hand sides at widths 2-3 (thorough 2-4 and 8), "
+        "variables plain or interval-annotated, plus negations / conjunctions / disjunctions of pairs: constraint_to_si "
+        "must report sat and every returned bound must contain the bounded expression's value for every satisfying assignment.",
+        "constraint_to_si is history-dependent (fresh names feed AST hashes): every job runs in a freshly forked process. "
+        "Known finding: the balancer ignores modular wrap-around (exact case lists).",
+        "DESIGN.md §2 C25",
+    ),
 }
 
 NOT_YET = "check not built yet in this session (planned; see DESIGN.md §2)"
